@@ -20,7 +20,9 @@ class Recorder(object):
         self.events = []     # ('eval', fn, kind, arg, value) | ('write', nbytes)
         self.fault_at = None # raise at the k-th evaluation (0-based) when set
         self.nevals = 0
+        self.zero_every = None   # when k: every k-th evaluation of a function value (not of a derivative) returns exactly 0.0
     def value(self, fn, kind, idx):
+        if self.zero_every and kind == 0 and idx % self.zero_every == 0: return 0.0
         return 0.25 + ((idx * 37 + fn[0] * 11 + fn[1] * 5 + fn[2] * 3 + kind * 7) % 1009) / 64.0
     def evaluate(self, fn, kind, x):
         if self.fault_at is not None and self.nevals == self.fault_at:
